@@ -251,7 +251,7 @@ def run(tier, seed):
     t2, capped2 = run_blocks(chain_worker, chain_scenarios(tier), seed=seed)
     from ..par import merge
     merge(total, t2)
-    rep.add_violations(total.violations)
+    rep.add_violations(total.violations, total.hist_sig)
     rep.harness_errors = total.stats.get("harness_errors", 0)
     rep.notes.extend(total.notes)
     rep.coverage = {
